@@ -352,8 +352,10 @@ class ObjectType(Type):
 
         # The class of the object
 
+        # Own declarations first, then the ones of the ancestors in the order of
+        # the MRO (a ChainMap of the parents' ChainMaps would be searched depth-first)
         self._arguments = ChainMap(
-            {}, *(tp.arguments for tp in self.parents())
+            {}, *(tp.arguments.maps[0] for tp in self.ancestors())
         )  # type: ChainMap[Argument, Any]
 
         # Add arguments from annotations
@@ -497,6 +499,16 @@ class ObjectType(Type):
         for tp in self.basetype.__bases__:
             if issubclass(tp, Config) and tp not in [Config, Task]:
                 yield tp.__xpmtype__
+
+    def ancestors(self) -> Iterator["ObjectType"]:
+        """The types of the configuration classes this one inherits from, in MRO order"""
+        from .objects import Config, Task
+
+        for tp in self.basetype.__mro__[1:]:
+            if issubclass(tp, Config) and tp not in [Config, Task]:
+                xpmtype = tp.__dict__.get("__xpmtype__", None)
+                if isinstance(xpmtype, ObjectType) and xpmtype.basetype is tp:
+                    yield xpmtype
 
     def validate(self, value):
         """Ensures that the value is compatible with this type"""
